@@ -7,6 +7,8 @@ spec/HistOps.tla      histogram.scale (with the stored scale) / set_nevents / ad
 spec/Graph.tla        graph.scale over every valid naming of 0..3 error fields: ScaleExact, UnknownScaleRaises
 spec/Convert.tla      hist_to_graph, iter_bins, iter_bins_with_edges, iter_cells, CSV: OnePointPerCell, IteratorsAgree,
                       RangesChecked, CsvOneRowPerCell
+spec/ConvFlow.tla     several values through ONE ToCSV / HistToGraph / ScaleTo object, each with its own context options, in
+                      one or several run() calls: ElementStateless, RowCount (guards: ConvFlow_sticky_local / _self)
 spec/Trace_HistOps.tla  validation of operations recorded on random float data (rational / rank encodings)
 """
 import concurrent.futures
@@ -120,6 +122,15 @@ def run(ctx):
         # columns given as one list object (symmetric errors) and a twin graph made from the same lists
         f_g4 = pool.submit(hl.mc_export, ctx, "Graph", "Graph_share_export.cfg", must_cover=("GetScale", "Scale"),
                            min_records=3000)
+        # flows of several values through ONE element object (ToCSV / HistToGraph / ScaleTo), each value with the options
+        # of its own context, in one or several run() calls: ElementStateless; the element that remembers the setting of
+        # an earlier value (in a variable of run() / on the object) must be refuted
+        f_flow = pool.submit(hl.mc_export, ctx, "ConvFlow", "ConvFlow_%s.cfg" % ("thorough_export" if ctx.thorough else "quick"),
+                             must_cover=("Feed", "NewRun"), min_records=5000)
+        f_mc4 = pool.submit(ctx.mc, "ConvFlow", "ConvFlow_thorough.cfg", coverage=True,
+                            must_cover=("Feed", "NewRun")) if ctx.thorough else None
+        f_guards = [(cfg, pool.submit(ctx.mc, "ConvFlow", cfg, expect_violation="report"))
+                    for cfg in ("ConvFlow_sticky_local.cfg", "ConvFlow_sticky_self.cfg")]
         # (random graph histories only in the thorough tier: Graph_seq_export has every history of length 4)
         f_g2 = pool.submit(hl.export_generate, ctx, "Graph", "Graph_hist_export.cfg", num=4000, depth=6,
                            min_records=400) if ctx.thorough else None
@@ -137,6 +148,11 @@ def run(ctx):
             h12.replay_convert(ctx, rec, k, report)
             ctx.case(["convert", rec], nontrivial=len(rec["conv"]["cells"]) + len(rec["conv"]["rows"]) + len(rec["conv"]["cols"]) > 0)
         ctx.sample({"spec_conversion": crecs[len(crecs) // 2]})
+        frecs = f_flow.result()
+        for k, rec in enumerate(frecs):
+            h12.replay_flow(ctx, rec, k, report)
+            ctx.case(["element_flow", rec], nontrivial=len(rec["flow"]) > 1)
+        ctx.sample({"spec_element_flow": frecs[len(frecs) // 2]}, limit=8)
         for fut, what in ((f_h1, "histogram_op"), (f_h2, "histogram_history"), (f_h3, "histogram_scale_sequence")):
             hrecs = fut.result()
             for k, rec in enumerate(hrecs):
@@ -152,9 +168,15 @@ def run(ctx):
                 guarded(report, what, rec, h12.replay_graph, ctx, rec, k, report)
                 ctx.case([what, rec], nontrivial=True)
             ctx.sample({"spec_" + what: grecs[len(grecs) // 3]}, limit=8)
-        for fut in (f_mc1, f_mc2, f_mc3):
+        for fut in (f_mc1, f_mc2, f_mc3, f_mc4):
             if fut is not None:
                 fut.result()
+        for cfg, fut in f_guards:
+            if fut.result().violated != "ElementStateless":
+                raise core.MachineryError("the flow model is insensitive: %s did not refute ElementStateless" % cfg)
+        extra["sensitivity"] = ["ConvFlow with Memory = local (the effective duplicate_last_bin / to_csv kept in a variable of "
+                                "run() from value to value) and Memory = self (kept on the element across run() calls): TLC "
+                                "refutes ElementStateless"]
         f_trace.result()
     finally:
         pool.shutdown(wait=True)
@@ -165,6 +187,8 @@ def run(ctx):
              "4-operation histories, at 7 magnitudes of edges and contents; every "
              "graph (1..3 coordinates, every ordered choice of 0..3 error fields, 4 name sets) x scale x target and "
              "every getter / setter sequence of length 4 (thorough: and generated histories); every conversion of Convert.tla (3 coordinate modes, all index ranges, both "
-             "duplicate_last_bin, functions and ToCSV / HistToGraph elements, int/float contents, list/tuple edges); "
+             "duplicate_last_bin, functions and ToCSV / HistToGraph elements, int/float contents, list/tuple edges); every "
+             "flow of ConvFlow.tla (3 values through ONE ToCSV / HistToGraph / ScaleTo object, each with the options of its own "
+             "context, in one or several run() calls) with the output of every value compared; "
              "C2S: seeded random float histograms / graphs, every recorded operation validated by Trace_HistOps",
         exhaustive=True)
